@@ -316,7 +316,7 @@ def main(chk):
                 'write_fits, re-read with astropy and compared exactly with the Lean model (tags, LIVETIME, TRG_ID) + the statement evaluated on the file; '
                 'real ROI models simulated on synthetic GTIs. non-trivial = ≥ 2 non-empty components and at least one row removed (veto or fiducial cut)')
     chk.assumptions = TRUSTED
-    chk.lean(['IxpeVerif.Props.C04', 'IxpeVerif.Props.Audit.C04'], ['within_fiducial_rectangle', 'split_event_time', 'apply_dead_time', 'fill_livetime'])
+    chk.lean(['IxpeVerif.Props.C04', 'IxpeVerif.Props.Audit.C04'], ['within_fiducial_rectangle', 'split_event_time', 'apply_dead_time', 'fill_livetime', 'skel_finalize'])
     import corr_gen
     corr_gen.run(chk, ['within_fiducial_rectangle', 'split_event_time'], n=100 if chk.tier == 'quick' else 2000, tag='C04')
     n = 60 if chk.tier == 'quick' else 1500
